@@ -190,6 +190,8 @@ def run(spec, tier, prop, mg, max_paths=400, max_seconds=120.0, timeout_ms=10000
             if spec.get("check_defined"):
                 _check_defined(res, spec, prop, p)
             leaves = [(n, arrs[n], grads[n]) for n in arrs]
+            if spec.get("skip_leaves"):
+                leaves = [l for l in leaves if l[0] not in spec["skip_leaves"]]
             if spec.get("pre_grads"):
                 # a leaf the program never touches legitimately keeps the gradient of the earlier pass (C07): no claim on it here
                 import re as _re
